@@ -1,6 +1,6 @@
 (* C08 — The library refuses to emit messages that violate HTTP/2 message rules. *)
 From H2 Require Import Base.Prelude Model.FsmTypes Gen.Tables Model.Types Model.StreamFSM Proofs.FsmReach Proofs.C0708Proofs.
-From H2 Require Import Base.PyDict Model.ConnState Model.Connection Proofs.C29Proofs.
+From H2 Require Import Base.PyDict Model.ConnState Model.Connection Proofs.C29Proofs Proofs.RoleInv.
 
 (* After ANY sequence of inputs, the stream state machine:
    - refuses SEND_HEADERS once trailers were sent, and informational headers once the final response was sent;
@@ -31,7 +31,19 @@ Theorem C08_a_successful_server_send_headers_found_its_stream :
     api_send_headers sid hs L es pw pd pe c = (c', Ok tt) -> dmem sid (c_streams c) = true.
 Proof. exact server_send_headers_ok_known. Qed.
 
+(* The role gate at connection level, over EVERY history of API calls and received frames: the connection state machine
+   never reaches the other role's open state (a client is never SERVER_OPEN, a server never CLIENT_OPEN, between any two
+   operations), and a connection that is still IDLE holds no stream object.  With the regenerated connection table (a
+   client-side state machine refuses SEND_PUSH_PROMISE, a server-side one RECV_PUSH_PROMISE) this is "a client can never
+   push" and "a server never accepts a push" for all reachable states. *)
+Theorem C08_connection_state_agrees_with_the_role :
+  forall cfg os, let c := run (conn_new cfg) os in
+    (client c = true -> c_state c <> C_SERVER_OPEN) /\ (client c = false -> c_state c <> C_CLIENT_OPEN) /\
+    (c_state c = C_IDLE -> c_streams c = [] /\ c_closed c = []).
+Proof. exact connection_state_agrees_with_the_role. Qed.
+
 Print Assumptions C08_send_rules_after_any_history.
 Print Assumptions C08_role_gate.
 Print Assumptions C08_a_server_cannot_open_a_stream_with_send_headers.
 Print Assumptions C08_a_successful_server_send_headers_found_its_stream.
+Print Assumptions C08_connection_state_agrees_with_the_role.
